@@ -18,7 +18,7 @@ Definition dec_event (v : tval) : event :=
   let a := vn (vnth 1 v) in let b := vn (vnth 2 v) in let c := vn (vnth 3 v) in
   match vn (vnth 0 v) with
   | 0 => Connect a b
-  | 1 => AuthOK a b c
+  | 1 => if shape_is_control (vn (vnth 4 v)) then AuthOK a b c else AuthFail a b
   | 2 => AuthFail a b
   | 3 => Kick a b c
   | 4 => Heartbeat a b
